@@ -600,7 +600,7 @@ def extend_from_step(case, reg, toks, t, fails):
     if ga is not None:
         got = [(e[0], e[1]) for e in ga["ents"]]
         want = [(e[0], e[1]) for e in a] + [(e[0], e[1]) for e in new]
-        if got[:len(a)] != want[:len(a)] or sorted(got) != sorted(want):
+        if sorted(got) != sorted(want):
             fails.append("%s after extend_from %s holds %s, expected its own %s plus %s" % (
                 reg, toks[2], got, want[:len(a)], want[len(a):]))
     if gb is not None and (gb["len"] != 0 or gb["ents"]):
@@ -648,7 +648,7 @@ def clone_step(case, reg, toks, t, fails):
     g = t["snaps"].get(dst)
     if t["outcome"] != "ok" or g is None:
         return True
-    if [(e[0], e[3]) for e in g["ents"]] != [(e[0], e[3]) for e in src]:
+    if sorted((e[0], e[3]) for e in g["ents"]) != sorted((e[0], e[3]) for e in src):
         fails.append("clone of %s holds %s, the original holds %s" % (reg, g["ents"], src))
     ck = sum(1 for e in t["ev"] if e.startswith("ck"))
     cv = sum(1 for e in t["ev"] if e.startswith("cv"))
@@ -741,7 +741,7 @@ def umap_iter_step(case, sreg, toks, t, fails):
             if pos < len(pre):
                 e = pre[pos]
                 w = ("+@%d=()" % pos) if kind in ("values", "values_mut") else "+@%d=K%d.%d" % (pos, e[0], e[1])
-                if p != w:
+                if strip_slot(p) != strip_slot(w):
                     fails.append("%s as map, %s: step %d yielded %s, the entry there is %s" % (sreg, kind, pos, p, w))
             elif p != "-":
                 fails.append("%s as map, %s: yielded %s after the end" % (sreg, kind, p))
@@ -822,7 +822,7 @@ def iter_step(case, reg, toks, t, fails):
                     w = "+@%d=K%d.%d" % (pos, e[0], e[1])
                 else:
                     w = "+@%d=V%d.%d" % (pos, e[2], val)
-                if p != w:
+                if strip_slot(p) != strip_slot(w):
                     fails.append("%s %s: step %d yielded %s, the entry there is %s" % (reg, kind, pos, p, w))
             elif p != "-":
                 fails.append("%s %s: yielded %s after the end" % (reg, kind, p))
@@ -865,7 +865,7 @@ def iter_step(case, reg, toks, t, fails):
         want = "[" + ",".join(show(i) for i in range(fork, len(pre))) + "]"
         if not isset and any(e[3] is None for e in pre):
             want = None
-        if want is not None and parts[-1] != want:
+        if want is not None and strip_slot(parts[-1]) != strip_slot(want):
             fails.append("%s %s: the clone taken at position %d yields %s, the entries from there are %s"
                          % (reg, kind, fork, parts[-1], want))
     g = t["snaps"].get(reg)
@@ -1168,7 +1168,7 @@ def run(prop, ops_path, impl_path, profile):
                     elif len(set(classes)) == len(classes) and t["outcome"] == "ok":
                         want = "[" + ",".join(("+@%d=()" % [e[0] for e in pre].index(c)) if find(pre, c) is not None else "-"
                                               for c in classes) + "]"
-                        if t["ret"] != want:
+                        if strip_slot(t["ret"]) != strip_slot(want):
                             fails.append("%s get_disjoint_mut (zero-sized values) returned %s, get_mut gives %s" % (reg, t["ret"], want))
                 for r2, sn in t["snaps"].items():
                     if sn is not None:
